@@ -324,11 +324,168 @@ def gen80(tier, rng):
     return out
 
 
+# ---------------------------------------------------------------------------------------------
+# review round: sign-bit operations on raw patterns (NaN sign / payload), rounding directions,
+# suffixed and integral overloads
+# ---------------------------------------------------------------------------------------------
+def raw_values(f, rng, n_rand):
+    """bit patterns incl. NaNs of both signs, quiet and signalling, with payloads"""
+    mw = f.mw
+    mags = [0, 1, (1 << mw) - 1, 1 << mw, f.bias << mw, (f.bias << mw) + 1, f.inf - 1, f.inf,
+            f.qnan, f.qnan | 1, f.qnan | rng.getrandbits(mw - 1), f.qnan | ((1 << (mw - 1)) - 1),   # quiet NaNs
+            f.inf | 1, f.inf | (1 << (mw - 2)), f.inf | (rng.getrandbits(mw - 1) or 1)]               # signalling NaNs
+    mags += [rng.getrandbits(f.W - 1) for _ in range(n_rand)]
+    mags += [f.inf | (rng.getrandbits(mw) or 1) for _ in range(n_rand // 2)]
+    out = []
+    for m in mags:
+        out += [m, m | f.S]
+    return sorted(set(out))
+
+
+def raw_values80(rng, n_rand):
+    top = 1 << 63
+    q = top | (1 << 62)
+    mags = [(0, 0), (1, 0), (top - 1, 0), (top, 1), (top, X87_BIAS), (top + 1, X87_BIAS), ((1 << 64) - 1, 32766), (top, 32767),
+            (q, 32767), (q | 1, 32767), (q | rng.getrandbits(62), 32767), ((1 << 64) - 1, 32767)]          # quiet NaNs only
+    mags += [(top | rng.getrandbits(63), rng.randrange(1, 32767)) for _ in range(n_rand)]
+    mags += [(q | rng.getrandbits(62), 32767) for _ in range(n_rand // 2)]
+    out = []
+    for (m, e) in mags:
+        out += [(0, m, e), (1, m, e)]
+    return sorted(set(out))
+
+
+def rm_values(f, rng, n_rand):
+    """NON-NEGATIVE magnitudes for the rounding-direction cases: k, k + 1/4, 1/2, 3/4 and neighbours, tiny, huge, random"""
+    vals = set()
+    for k in list(range(0, 12)) + [1 << (f.mw - 2), (1 << (f.mw - 1)) - 2, (1 << (f.mw - 1)) - 1, (1 << f.mw) - 1, 1 << 31, (1 << 62)]:
+        for d in (0.0, 0.25, 0.5, 0.75):
+            b = f.of_float(k + d)
+            if b is not None:
+                vals.update({b, b + 1, max(b - 1, 0)})
+    vals.update({0, 1, 2, 1 << f.mw, f.nearest(1e-10), f.nearest(0.1), f.nearest(0.9999999), f.inf - 1, f.inf, f.qnan,
+                 (f.bias + 62) << f.mw, ((f.bias + 63) << f.mw) - 1, (f.bias + 63) << f.mw, ((f.bias + 63) << f.mw) + 1,
+                 (f.bias + f.mw) << f.mw, ((f.bias + f.mw) << f.mw) - 1, ((f.bias + f.mw - 1) << f.mw) + 1})
+    for _ in range(n_rand):
+        e = rng.randrange(f.bias - 3, f.bias + f.mw + 2)
+        vals.add((e << f.mw) | rng.getrandbits(f.mw))
+    return sorted(v for v in vals if v <= f.inf or v == f.qnan)
+
+
+def rm_values80(rng, n_rand):
+    from fractions import Fraction
+    vals = set()
+    for k in list(range(0, 8)) + [(1 << 62) - 1, (1 << 62), (1 << 63) - 1, (1 << 31)]:
+        for d in (Fraction(0), Fraction(1, 4), Fraction(1, 2), Fraction(3, 4)):
+            v = x87_of_fraction(k + d)
+            if v is not None:
+                vals.add(v)
+                vals.update(x87_neighbours(v))
+    vals.update({(0, 0, 0), (0, 1, 0), (0, 1 << 63, 1), X87_INF, X87_NAN, (0, (1 << 64) - 1, 32766),
+                 x87_of_fraction(Fraction(2) ** 63), x87_of_fraction(Fraction(2) ** 64)})
+    for _ in range(n_rand):
+        vals.add((0, (1 << 63) | rng.getrandbits(63), X87_BIAS + rng.randrange(-3, 66)))
+    return sorted((0, m, e) for (s, m, e) in vals)
+
+
+def gen_review(tier, rng):
+    quick = tier != "thorough"
+    out = []
+    # --- raw sign-bit operations
+    for f in (F32, F64):
+        t = f.tag
+        rv = raw_values(f, rng, 12 if quick else 200)
+        for v in rv:
+            for fn in ("rawfabs", "rawabs", "rawsignbit", "rawsignbit_fb"):
+                out.append(f"{fn}{t} {v}")
+        sub = [rv[i] for i in sorted(rng.sample(range(len(rv)), min(len(rv), 26 if quick else 120)))]
+        core = [0, f.S, f.bias << f.mw, (f.bias << f.mw) | f.S, f.qnan, f.qnan | f.S, f.inf | 1, f.inf | 1 | f.S, f.inf, f.inf | f.S]
+        for x in sorted(set(sub + core)):
+            for y in sorted(set(sub + core)):
+                out.append(f"rawcopysign{t} {x} {y}")
+                out.append(f"rawcopysign_fb{t} {x} {y}")
+    rv80 = raw_values80(rng, 8 if quick else 100)
+    for v in rv80:
+        for fn in ("rawfabs", "rawabs", "rawfabsl", "rawsignbit", "rawsignbit_fb"):
+            out.append(f"{fn}80 {t80(v)}")
+    sub80 = [rv80[i] for i in sorted(rng.sample(range(len(rv80)), min(len(rv80), 48 if quick else 120)))]
+    for x in sub80:
+        for y in sub80:
+            out.append(f"rawcopysign80 {t80(x)} {t80(y)}")
+            out.append(f"rawcopysignl80 {t80(x)} {t80(y)}")
+    # --- rounding directions: rint for non-negative arguments (GCC's inline expansion of __builtin_rint / std::rint
+    # for binary32 / binary64 rounds |x| and is wrong for negative arguments in the directed modes unless
+    # -frounding-math is given: a property of the compiler, the same for libstdc++), lrint / llrint and the x87
+    # rint for both signs
+    for f in (F32, F64):
+        t = f.tag
+        mv = rm_values(f, rng, 20 if quick else 600)
+        for md in (0, 1, 2, 3):
+            for v in mv:
+                out.append(f"rm_rint{t} {md} {v}")
+                for fn in ("rm_lrint", "rm_llrint"):
+                    out.append(f"{fn}{t} {md} {v}")
+                    if v != f.qnan:
+                        out.append(f"{fn}{t} {md} {v | f.S}")
+    # ... and the suffixed overloads rintf / lrintf / llrintf, rintl / lrintl / llrintl on a part of the table
+    mvs = [v for v in rm_values(F32, rng, 4) if rng.random() < 0.35]
+    for md in (1, 2, 3):
+        for v in mvs:
+            for fn in ("rm_rintf", "rm_lrintf", "rm_llrintf"):
+                out.append(f"{fn}32 {md} {v}")
+    mv80 = rm_values80(rng, 10 if quick else 300)
+    for md in (1, 2, 3):
+        for v in mv80:
+            if rng.random() < 0.35:
+                for fn in ("rm_rintl", "rm_lrintl", "rm_llrintl"):
+                    out.append(f"{fn}80 {md} {t80(v)}")
+    for md in (0, 1, 2, 3):
+        for v in mv80:
+            for fn in ("rm_rint", "rm_lrint", "rm_llrint"):
+                out.append(f"{fn}80 {md} {t80(v)}")
+                if v != X87_NAN:
+                    out.append(f"{fn}80 {md} {t80((1,) + v[1:])}")
+    # --- C-style suffixed overloads and the integral overloads: a small table each (same code behind them)
+    f = F32
+    uv = [0, f.S, 1, f.bias << f.mw, f.nearest(2.5), f.nearest(-2.5), f.nearest(-3.5), f.nearest(0.5), f.nearest(-0.5), f.nearest(1e10),
+          f.inf - 1, f.inf, f.inf | f.S, f.qnan, f.nearest(8388607.5), f.nearest(-4194303.5)] + [rng.getrandbits(32) % f.inf for _ in range(6)]
+    for fn in ("floorf", "ceilf", "truncf", "roundf", "rintf", "fabsf", "lrintf", "llrintf"):
+        for v in uv:
+            out.append(f"{fn}32 {v}")
+    bv = [0, f.S, 1, f.bias << f.mw, f.nearest(3.0), f.nearest(-5.0), f.nearest(0.3), f.inf - 1, f.inf, f.inf | f.S, f.qnan, rng.getrandbits(31) % f.inf]
+    for fn in ("fmodf", "remainderf", "copysignf", "fminf", "fmaxf", "fdimf", "nextafterf"):
+        for x in bv:
+            for y in bv:
+                out.append(f"{fn}32 {x} {y}")
+    from fractions import Fraction
+    uv80 = [(0, 0, 0), (1, 0, 0), X87_INF, (1,) + X87_INF[1:], X87_NAN] + [x87_of_fraction(q) for q in
+            (1, -1, Fraction(5, 2), Fraction(-5, 2), Fraction(-7, 2), Fraction(1, 2), Fraction(2) ** 63 - Fraction(1, 2), Fraction(2) ** 64, 10 ** 10)]
+    uv80 += [(rng.getrandbits(1), (1 << 63) | rng.getrandbits(63), X87_BIAS + rng.randrange(-3, 66)) for _ in range(6)]
+    for fn in ("floorl", "ceill", "truncl", "roundl", "rintl", "fabsl", "lrintl", "llrintl"):
+        for v in uv80:
+            out.append(f"{fn}80 {t80(v)}")
+    bv80 = uv80[:12]
+    for fn in ("copysignl", "fminl", "fmaxl", "fdiml", "fmodl", "remainderl"):
+        for x in bv80:
+            for y in bv80:
+                out.append(f"{fn}80 {t80(x)} {t80(y)}")
+    iv = [0, 1, -1, 2, -7, 1 << 31, -(1 << 31), (1 << 53) + 1, -(1 << 53) - 1, (1 << 62) + 1, (1 << 63) - 1, -(1 << 63),
+          (1 << 63) - 513, (1 << 63) - 512] + [rng.getrandbits(63) - (1 << 62) for _ in range(6)]
+    ivu = [0, 1, 7, (1 << 53) + 1, (1 << 63) - 1, 1 << 63, (1 << 64) - 1, (1 << 64) - 1025, (1 << 64) - 1024] + [rng.getrandbits(64) for _ in range(6)]
+    for fn in ("floor", "ceil", "trunc", "round", "rint", "lrint", "llrint", "isnan", "isinf"):
+        for v in iv:
+            out.append(f"i_{fn}64 {v}")
+        for v in ivu:
+            out.append(f"u_{fn}64 {v}")
+    return out
+
+
 def gen(tier, rng):
     out = []
     quick = tier == "quick"
     search = tier == "search"
     out += gen80(tier, rng)
+    out += gen_review(tier, rng)
     for f in (F32, F64):
         t = f.tag
         bnd = boundary(f, rng, quick or search)
